@@ -262,7 +262,7 @@ def generate(rng: random.Random, *, features=None) -> Workflow:
     w.rhn = rng.choice([0, 1, 1, 2, 3])
     for t in w.tasks:
         w.custom[t] = {}
-        if f["optional"] and rng.random() < 0.3:
+        if f["optional"] and rng.random() < (0.75 if f["optional"] == "often" else 0.3):
             w.succ_opt.add(t)
         if f["custom"] and (f["custom"] == "always" or rng.random() < 0.4):
             w.custom[t]["x"] = rng.random() < 0.4
@@ -270,7 +270,7 @@ def generate(rng: random.Random, *, features=None) -> Workflow:
             w.eretry[t] = rng.choice([0, 0, 0, 1, 2]) if f["retries"] != "always" else rng.choice([1, 2])
             w.sretry[t] = (rng.choice([0, 0, 0, 1]) if f["retries"] != "always" else rng.choice([0, 1, 2])) if f["submit_fail"] else 0
     w.expire_candidates = set(rng.sample(w.tasks, rng.randint(1, len(w.tasks)))) if f["expire"] else set()
-    texts = rng.sample(sorted(set(REC_TEXTS)), rng.randint(1, 3))
+    texts = rng.sample(sorted(set(REC_TEXTS)), 3 if f.get("recs") == "many" else rng.randint(1, 3))
     if not any(t.startswith("P") for t in texts):
         texts[0] = "P1"
     for tx in texts:
@@ -299,7 +299,8 @@ def generate(rng: random.Random, *, features=None) -> Workflow:
             outs += ["failed", "failed"]
         if w.custom[t]:
             outs += ["x", "x"]
-        outs += ["started"] if rng.random() < (0.4 if f.get("started") else 0.15) else []
+        outs += (["started"] * (3 if f.get("started") == "always" else 1)
+                 if rng.random() < (0.9 if f.get("started") == "always" else 0.4 if f.get("started") else 0.15) else [])
         if f["expire"] and t in w.expire_candidates and rng.random() < 0.5:
             outs += ["expired", "expired"]
         if f["submit_fail"] and t in w.succ_opt and rng.random() < 0.1:
@@ -360,7 +361,13 @@ def generate(rng: random.Random, *, features=None) -> Workflow:
             x, y = rng.sample(w.tasks, 2)
             w.lines.append({"rec": rng.choice(cyc), "lhs": atom(x, 1, "succeeded"), "rhs": y, "suicide": False})
     if f["sequential"] and (f["sequential"] == "always" or rng.random() < 0.25):
-        w.seqtasks.add(rng.choice(w.tasks))
+        st = rng.choice(w.tasks)
+        w.seqtasks.add(st)
+        if f.get("recs") == "many":
+            # the sequential task sits on every recurrence (its previous instance differs from one to the other)
+            for i in range(len(w.recs)):
+                if not any(l["rec"] == i and l["rhs"] == st and not l["suicide"] for l in w.lines):
+                    w.lines.append({"rec": i, "lhs": None, "rhs": st, "suicide": False})
     if f["queues"] and (f["queues"] == "always" or rng.random() < 0.5):
         nq = rng.randint(1, 2)
         for qi in range(nq):
@@ -384,7 +391,7 @@ def make_outcome(w: Workflow, rng: random.Random, mode="complete", ghosts=False)
         submit_ok = True
         customs = w.custom.get(name) or {}
         novanish = mode.endswith("_novanish")      # (jobs are never evicted: the design model has no polls)
-        if mode in ("complete", "complete_novanish"):
+        if mode in ("complete", "complete_novanish", "complete_failfirst"):
             # count earlier failures of this instance to stay within the retry budget
             prev = [table.get((str(point), name, k)) for k in range(1, int(sub))]
             efails = sum(1 for o in prev if o and o["submit_ok"] and o["script"][-1] == "failed")
@@ -400,7 +407,8 @@ def make_outcome(w: Workflow, rng: random.Random, mode="complete", ghosts=False)
             elif n_s > sfails_run and r.random() < 0.2 and not novanish:
                 vanish = True        # accepted by the job runner, evicted before it starts
             fail_ok = (efails < n_e) or (name in w.succ_opt)
-            will_fail = fail_ok and r.random() < 0.3
+            # ('complete_failfirst': wherever a failure is harmless - a retry remains, or success is optional - it happens)
+            will_fail = fail_ok and r.random() < (0.85 if mode == "complete_failfirst" else 0.3)
             for o, opt in customs.items():
                 if (not opt and not will_fail) or r.random() < 0.5:
                     script.append("msg_" + o)
@@ -419,10 +427,12 @@ def make_outcome(w: Workflow, rng: random.Random, mode="complete", ghosts=False)
                 if r.random() < 0.6:
                     script.append("msg_" + o)
             script.append("failed" if r.random() < 0.3 else "succeeded")
-            if submit_ok and r.random() < 0.2 and not novanish:
+            # mode 'any_evict': most accepted jobs are evicted by the job runner before they start (found
+            # submit-failed by a poll), so that submission retries are exhausted through that path
+            if submit_ok and r.random() < (0.65 if mode == "any_evict" else 0.2) and not novanish:
                 script = ["vanish"]
         table[key] = {"submit_ok": submit_ok, "script": script}
-        if mode not in ("complete", "complete_novanish") and not submit_ok and ghost:
+        if mode not in ("complete", "complete_novanish", "complete_failfirst") and not submit_ok and ghost:
             table[key]["ghost"] = True
         return table[key]
     outcome.table = table
